@@ -23,7 +23,7 @@ OPS = {
     'b': ['calc', 'A1=1', 'A3=2', 'compile'],
     'eng': ['calc', 'N=5', 'N=-3', 'compile'],
     'circ': ['calc', 'G=0', 'X=4'],
-    'd': ['calc', 'G3=11', 'G1:G5=1..5', 'compile-G'],
+    'd': ['calc', 'G3=11', 'G1:G5=1..5', 'compile-G', 'G2=txt,G5=2'],      # the last one overrides cells of the sparse range that are not nodes
 }
 PRE = {'a': ['RATE=5', 'B1=100'], 'b': ['A2=err', 'T!A1=ok'], 'eng': ['N=200', 'N=5'], 'circ': ['G=0', 'X=4'], 'd': ['B1=8', 'A1:C2=block']}
 B = M.B
